@@ -1,6 +1,6 @@
 (** MSM masks written by the encoder (C10): the signal mask, the satellite mask of the cells, the cell list,
     the rank arrays and the cell mask, for every accepted input in whatever order the caller listed it. *)
-From Coq Require Import ZArith List Lia Bool.
+From Coq Require Import ZArith List Lia Bool Sorting.Sorted.
 From RtcmModel Require Import Types BitIO Floats Field SigId Bias Msm.
 From RtcmProofs Require Import ListZ EncodeLen DecodeBound BitProofs MsmProofs DecodeTotal.
 Import ListNotations.
@@ -254,4 +254,51 @@ Proof.
   match type of H with (if ?c then _ else _) = _ => destruct c eqn:Hcap; [discriminate|] end.
   destruct sats as [|s0 sr]; destruct sigs as [|g0 gr];
     first [ exfalso; apply Hne; split; reflexivity | eapply msm_main_masks; exact H ].
+Qed.
+
+(** ---------- the decoder's view of the masks ---------- *)
+(** ids of the set positions, ascending: position p (MSB first) is id p+1 *)
+Lemma mask_ids_loop_spec w m : forall n i, 0 <= i ->
+  (forall s, In s (mask_ids_loop n i w m) <-> (i + 1 <= s <= i + Z.of_nat n /\ Z.testbit m (w - s) = true)) /\
+  StronglySorted Z.lt (mask_ids_loop n i w m).
+Proof.
+  induction n as [|n IH]; intros i Hi; cbn [mask_ids_loop].
+  - split; [intros s; split; [intros []|intros [H _]; lia]|constructor].
+  - destruct (IH (i + 1) ltac:(lia)) as [Hin Hs].
+    destruct (Z.testbit m (w - 1 - i)) eqn:Eb.
+    + split.
+      * intros s. cbn [In]. rewrite Hin. split.
+        -- intros [<-|[H1 H2]]; [split; [lia|replace (w - (i + 1)) with (w - 1 - i) by lia; exact Eb]|split; [lia|exact H2]].
+        -- intros [H1 H2]. destruct (Z.eq_dec s (i + 1)) as [->|Hne]; [left; reflexivity|right; split; [lia|exact H2]].
+      * constructor; [exact Hs|]. apply Forall_forall. intros s Hsin. apply Hin in Hsin. lia.
+    + split; [|exact Hs]. intros s. rewrite Hin. split.
+      * intros [H1 H2]. split; [lia|exact H2].
+      * intros [H1 H2]. split; [|exact H2]. destruct (Z.eq_dec s (i + 1)) as [->|Hne]; [|lia].
+        replace (w - (i + 1)) with (w - 1 - i) in H2 by lia. rewrite Eb in H2. discriminate.
+Qed.
+
+Theorem mask_to_id_vec_spec w m : 0 <= w ->
+  (forall s, In s (mask_to_id_vec w m) <-> (1 <= s <= w /\ Z.testbit m (w - s) = true)) /\
+  StronglySorted Z.lt (mask_to_id_vec w m).
+Proof.
+  intros Hw. unfold mask_to_id_vec. destruct (mask_ids_loop_spec w m (Z.to_nat w) 0 ltac:(lia)) as [H1 H2].
+  split; [|exact H2]. intros s. rewrite H1. rewrite Z2Nat.id by lia. split; intros [A B]; (split; [lia|exact B]).
+Qed.
+
+(** the cells, row-major: cell i (MSB first in the cell mask) is (satellite i / nsig, signal i mod nsig) *)
+Lemma cells_loop_spec sat_vec sig_vec ccl cm : forall n i cv, cells_loop n i ccl cm sat_vec sig_vec = Ok cv ->
+  cv = map (fun j => (znth sat_vec (j / zlen sig_vec), znth sig_vec (j mod zlen sig_vec)))
+           (filter (fun j => Z.testbit cm (ccl - 1 - j)) (map (fun k => i + Z.of_nat k) (seq 0 n))).
+Proof.
+  induction n as [|n IH]; intros i cv H; cbn [cells_loop] in H; [inversion H; reflexivity|].
+  cbn [seq map filter]. replace (i + Z.of_nat 0) with i by lia.
+  assert (Hshift : map (fun k => i + Z.of_nat k) (seq 1 n) = map (fun k => i + 1 + Z.of_nat k) (seq 0 n)).
+  { rewrite <- seq_shift, map_map. apply map_ext. intros k. lia. }
+  rewrite Hshift.
+  destruct (Z.testbit cm (ccl - 1 - i)).
+  - unfold aget in H. destruct ((0 <=? i / zlen sig_vec) && (i / zlen sig_vec <? zlen sat_vec)); cbn [bind] in H; [|discriminate].
+    destruct ((0 <=? i mod zlen sig_vec) && (i mod zlen sig_vec <? zlen sig_vec)); cbn [bind] in H; [|discriminate].
+    destruct (cells_loop n (i + 1) ccl cm sat_vec sig_vec) as [r|e|] eqn:E; cbn [bind] in H; try discriminate. inversion H; subst.
+    cbn [map]. f_equal. apply IH. exact E.
+  - apply IH. exact H.
 Qed.
